@@ -297,13 +297,12 @@ def julianDateToDatetime(julian_date):
         datetime: Converted ``datetime`` object.
     """
     year, month, day, hour, minute, second = julian_date.calendar_date
-    date_time = datetime(int(year), int(month), int(day), int(hour), int(minute), int(second))
     # Handle floating-point error in JulianDate -> calendar date/time conversion
-    # [NOTE] This implementation assumes that time steps will always be multiples of whole seconds.
-    if int(second) != second and round(second) == 60:
-        date_time += timedelta(seconds=1)
-
-    return date_time
+    # [NOTE] A double-precision Julian date resolves ~4e-5 seconds, so the recovered seconds are
+    #   rounded to the nearest millisecond rather than truncated (truncation returns the previous
+    #   whole second for about half of all whole-second instants).
+    date_time = datetime(int(year), int(month), int(day), int(hour), int(minute))
+    return date_time + timedelta(seconds=round(float(second), 3))
 
 
 class ScenarioTime(float):
